@@ -87,6 +87,10 @@ func run(c *lib.Ctx) error {
 		return lib.Infra("TLC reported %d programs, received %d", r.Distinct, len(cases))
 	}
 	c.Logf("exhaustive programs: %d", len(cases))
+	corrupt := os.Getenv("VERIF_CORRUPT") // development-time vacuity guard: "g" / "v" corrupt one expectation / one record
+	if corrupt == "g" {
+		cases[len(cases)/2].Exp.B += 1000
+	}
 	var mu sync.Mutex
 	tagged := 0
 	lib.Parallel(len(cases), 6, func(i int) {
@@ -133,6 +137,9 @@ func run(c *lib.Ctx) error {
 		vc[i] = vCase{Prog: progs[i], Obs: got.Obs, A0: got.A0, A1: got.A1, B: got.B, Exc: got.one()}
 	})
 	c.Sample(map[string]any{"elvish": Render(progs[nd]), "recorded": vc[nd]})
+	if corrupt == "v" {
+		vc[nd+1].A1 += 1000
+	}
 	if err := judge(c, dir, vc); err != nil {
 		return err
 	}
